@@ -47,6 +47,17 @@ func runC04(c *Ctx) {
 			}
 		}
 	}
+	// the list the sort model ranges is kept sorted by the builder: necessary conditions of the
+	// incremental insertion (shared with C08) — search direction, insertion form and position, index upkeep
+	c.ruleBinarySearch("O2-incremental-keeps-order")
+	if f := c.MustFn("O2-incremental-keeps-order", "builder", "RuleBuilder", "BuildRuleWithIncremental"); f != nil {
+		c.mergeModel("O2-incremental-keeps-order", f)
+	}
+	if f := c.MustFn("O2-incremental-keeps-order", "engine", "", "updateIncremental"); f != nil {
+		c.mergeModel("O2-incremental-keeps-order", f)
+	}
+	c.ruleFullBuildAndRemoval("O2-full-build-and-removal-sorted")
+	c.Min("O2-incremental-keeps-order", 30)
 	c.Min("O3-loop-discipline", 40)
 	c.Min("O2-order-source", 5)
 	c.Min("O4-errors-surface", 20)
